@@ -73,7 +73,7 @@ def check(pid, tier):
     # call against the least fixpoint over all ports
     cases2 = []
     for f, cap in (("lanes", 2500 if tier == "quick" else None), ("cross", None), ("halfstuck", 1200 if tier == "quick" else None),
-                   ("staticlane", 1200 if tier == "quick" else None)):
+                   ("staticlane", 1200 if tier == "quick" else None), ("feedback", 1500 if tier == "quick" else None)):
         got = tlc.emit("Connect2Emit", {"FAMILY": f})
         ev.cov["runs"].append({"kind": "tlc-case-emission+theorems", "module": "Connect2Emit", "family": f, "cases": len(got)})
         if cap and len(got) > cap:
@@ -86,7 +86,7 @@ def check(pid, tier):
         machinery.append(f"{len(herr)} harness errors (multi-port), first: {herr[0]['harness_error']}")
         tr2 = [t for t in tr2 if "harness_error" not in t]
     acc, tot, bad, gen, _ = tlc.validate("Connect2_Trace", tr2)
-    ev.add_traces("Connect2_Trace/lanes+cross+halfstuck", acc, tot, gen)
+    ev.add_traces("Connect2_Trace/lanes+cross+halfstuck+staticlane+feedback", acc, tot, gen)
     outs = {k: sum(1 for t in tr2 if t["end"]["out"] == k) for k in ("ok", "stall")}
     ev.cov["outcomes_multiport"] = outs
     if not outs["ok"] or not outs["stall"]:
